@@ -201,6 +201,15 @@ class C11(PropBase):
         world["modules"][0]["decls"].append({"d": "raw", "n": "VwPlainInit", "src": (
             "class VwPlainInit:\n    def __init__(self, k: VwSame, z: int = 0):\n        self.k = k\n        self.z = z\n"
             "    def __eq__(self, o):\n        return type(o) is type(self) and (o.k, o.z) == (self.k, self.z)\n    __hash__ = None\n")})
+        # a base class whose annotations are text (postponed evaluation) in a module of its own, subclassed in the second
+        # module, which binds the annotation's name to another type: inherited members mean what the base's module means
+        world["modules"].append({"name": "vwf", "future": True, "decls": [
+            {"d": "raw", "n": "VwAmount", "src": "VwAmount = typing.NewType('VwAmount', decimal.Decimal)\n"},
+            {"d": "raw", "n": "VwPriced", "src": "@dataclasses.dataclass\nclass VwPriced:\n    amount: VwAmount\n    history: list[VwAmount] = dataclasses.field(default_factory=list)\n"
+                                                  "    by_day: dict[str, VwAmount | None] = dataclasses.field(default_factory=dict)\n"}]})
+        world["modules"].append({"name": "vwg", "future": False, "decls": [
+            {"d": "raw", "n": "VwAmount", "src": "VwAmount = typing.NewType('VwAmount', int)\n"},
+            {"d": "raw", "n": "VwInvoice", "src": "import vwf\n@dataclasses.dataclass\nclass VwInvoice(vwf.VwPriced):\n    number: str = ''\n"}]})
         # a relay module that binds none of the names: references issued "through" it must still be
         # resolved against the module further up the stack that does
         world["modules"].append({"name": "vwr", "future": False, "decls": []})
@@ -299,6 +308,12 @@ class C11(PropBase):
                     xw = {"$dict": [["k", {"$dict": [["a", "5"]]}], ["z", 1]]}
                     step = {"op": "transparent", "pos": "root", "dir": "unmarshal", "mod": mods[1], "x": xw, "chain": ["shadowed-module-name-in-signature"],
                             "t_base": tb, "t_wrapped": tw, "cmp": "kz"}
+                elif rng.random() < 0.25:
+                    tb = at_position(pos, {"k": "raw", "src": "vwf.VwPriced"})
+                    tw = at_position(pos, {"k": "raw", "src": "VwInvoice"})
+                    x = wire_at(pos, {"$dict": [["amount", "12.50"], ["history", {"$list": ["1.25", 2]}], ["by_day", {"$dict": [["mon", "0.75"], ["tue", None]]}], ["number", "A-1"]]})
+                    step = {"op": "transparent", "pos": pos, "dir": "unmarshal", "mod": "vwg", "x": x, "chain": ["inherited-text-annotations"], "t_base": tb, "t_wrapped": tw,
+                            "cmp": "priced"}
                 elif rng.random() < 0.3:
                     tb = at_position(pos, {"k": "raw", "src": f"{mods[0]}.VwTreeNS.VwNode"})
                     tw = at_position(pos, {"k": "raw", "src": f"{mods[0]}." + rng.choice(["VwNodeId", "VwNodeAl"])})
@@ -509,6 +524,15 @@ def _sig(step, ob, ow) -> str:
 
 
 def _same_modulo_holder(a, b, step) -> bool:
+    if step.get("cmp") == "priced":
+        def fields(o):
+            for _ in range(3):  # the holder at the step's position: list / dict value / tuple member
+                if isinstance(o, (list, tuple)) and o:
+                    o = o[0]
+                elif isinstance(o, dict) and "k" in o:
+                    o = o["k"]
+            return [getattr(o, n, "<missing>") for n in ("amount", "history", "by_day")]
+        return model.same(fields(a), fields(b))
     if step.get("cmp") == "kz":
         try:
             return model.same(a.k, b.k) and a.z == b.z
